@@ -105,7 +105,8 @@ def handle (op : String) (j : Json) : Option Json :=
                           ("assessed_pairs", ofNat r.assessedPairs), ("total", errJson r.total),
                           ("largest_len", ofNat r.largestLen), ("largest", errJson r.largest),
                           ("bed", ofPairs r.bed), ("longest_positions", ofNatList r.longestPositions),
-                          ("longest_agreement", ofNatList r.longestAgreement)])
+                          ("longest_agreement", ofNatList r.longestAgreement),
+                          ("per_block", ofList (fun b => Json.arr #[ofNatList b.1, errJson b.2.1, ofNatList b.2.2]) r.perBlock)])
     | _, _, _ => some badInput
   else if op == "c11.multiway" then
     match (getList? j "tables").bind (·.mapM parseTable) with
